@@ -185,7 +185,8 @@ def run_shards(pid, descs, workdir):
             t0 = time.time()
             try:
                 p = subprocess.run([PY, "-m", "rtfmon.run", "--shard", pid, dfile, ofile],
-                                   cwd=HERE, env=dict(env, PYTHONHASHSEED=hashseeds[k % len(hashseeds)]),
+                                   cwd=HERE, env=dict(env, PYTHONHASHSEED=d.get("hashseed") or
+                                                      hashseeds[k % len(hashseeds)]),
                                    timeout=timeout,
                                    stdout=subprocess.PIPE, stderr=subprocess.STDOUT)
                 out = p.stdout.decode("utf-8", "replace")[-3000:]
@@ -256,9 +257,18 @@ def main(argv=None):
     import glob
     reg = sorted(glob.glob(os.path.join(HERE, "replays", pid, "regress", "*.json")))
     if reg:
-        n = 4 if len(reg) > 12 else 1
-        for i in range(n):
-            descs.append({"kind": "__regress__", "files": reg[i::n], "timeout": 1800})
+        # a regression case is replayed under the string-hash seed it was first seen with
+        by_seed: dict = {}
+        for f in reg:
+            try:
+                hs = str(json.load(open(f)).get("hashseed") or "0")
+            except Exception:  # noqa
+                hs = "0"
+            by_seed.setdefault(hs, []).append(f)
+        for hs, files in sorted(by_seed.items()):
+            n = 4 if len(files) > 12 else 1
+            for i in range(n):
+                descs.append({"kind": "__regress__", "files": files[i::n], "timeout": 1800, "hashseed": hs})
     for k, d in enumerate(descs):
         d.setdefault("shard", k)
         d.setdefault("tier", tier)
